@@ -105,6 +105,8 @@ impl<T: Write + Seek> ShapeWriter<T> {
             // Part of the record or of its index entry may have been written:
             // the next write goes back behind the last complete record
             self.repositioning_needed = true;
+            // and part of the header placeholders: they are to be rewritten
+            self.dirty = true;
         }
         result
     }
